@@ -86,36 +86,20 @@ Definition dispatch_dns (kind : string) (args : list string) : string :=
     end
   else BADARGS.
 
-(* census of package packet: function -> (number of for/range loops, what covers it).  Loops of
-   the handler packages that walk tables (lease table, caches, hunt lists) are not tied by count
-   (helper extraction changes them); they are reported in the evidence only. *)
+(* census of package packet: function -> (number of DATA-DEPENDENT loops, what covers it).  `for range`
+   and counted loops (index stepped once per iteration against a bound that the body does not assign)
+   terminate by construction and are not listed; what is listed needs a totality / progress theorem.
+   Loops of the handler packages are reported in the evidence only (they walk tables, not input). *)
 Definition census_table : list (string * (nat * string)) :=
   [("newParseOptions", (1%nat, "parse_opts: C08_ndp_options_total, C08_progress_ndp_options"));
-   ("DNSSearchList.unmarshal", (1%nat, "dnssl_loop: C08_progress_dnssl (label validation: parameter lbl_ok)"));
-   ("RecursiveDNSServer.unmarshal", (1%nat, "rdnss_servers (counted loop)"));
+   ("DNSSearchList.unmarshal", (1%nat, "dnssl_loop: C08_progress_dnssl (cursor uses the wire length; label validation is parameter lbl_ok)"));
    ("HopByHopExtensionHeader.ParseHopByHopExtensions", (1%nat, "hbh_loop: C08_hopbyhop_total, C08_progress_hopbyhop"));
    ("DHCP4.ParseOptions", (1%nat, "dhcp_walk false: C08_dhcp_parse_options_total, C08_progress_dhcp_options"));
    ("DHCP4.validateOptions", (1%nat, "dhcp_walk true: C08_dhcp_is_valid_total, C08_progress_dhcp_options"));
    ("LLDP.GetPDU", (1%nat, "lldp_get_pdu: C08_lldp_total, C08_progress_lldp"));
    ("LLDP.FastLog", (1%nat, "not modelled here: VIEWS lldp_walk (C01)"));
-   ("decodeName", (2%nat, "not modelled here: DNS decodeName (C08_decodeName_total); second loop since c8663df: the dot scan of a label"));
-   ("DNSEntry.decodeRRs", (1%nat, "not modelled here: DNS decodeRRs (C08_decodeRRs_total)"));
-   ("DNSEntry.Copy", (4%nat, "not modelled: map copies of the stored entry (no input indexing)"));
-   ("DNSEntry.FastLog", (3%nat, "not modelled: logging of the stored entry (C20)"));
-   ("NewOptions.Copy", (5%nat, "not modelled: copies of the decoded options (no input indexing)"));
-   ("DHCP4.AppendOptions", (4%nat, "capacity rule encode_dhcp4_into; ENCODE Model/EncodeDHCP.v"));
-   ("EncodeDHCP4", (1%nat, "capacity rule encode_dhcp4_into; ENCODE Model/EncodeDHCP.v"));
-   ("Ether.AppendPayload", (1%nat, "not modelled here: ENCODE (C03)"));
-   ("zeroes", (1%nat, "not modelled here: ENCODE (C03)"));
-   ("Checksum", (2%nat, "not modelled here: Model/Checksum.v (C15)"));
-   ("ICMP4Redirect.Addrs", (1%nat, "not modelled here: VIEWS r4_addrs (C01)"));
-   ("isASCII", (1%nat, "parameter lbl_ok of dnssl_loop"));
-   ("hasUnicodeReplacement", (1%nat, "parameter lbl_ok of dnssl_loop"));
-   ("AddrList.index", (1%nat, "not modelled: hunt list lookup (state, C14)"));
-   ("MACEntry.unlink", (1%nat, "not modelled: TABLES (C05)"));
-   ("MACTable.findMAC", (1%nat, "not modelled: TABLES (C05)"));
-   ("Session.onlineTransition", (1%nat, "not modelled: TABLES (C04)"));
-   ("Session.printHostTable", (2%nat, "not modelled: TABLES (printing)"))].
+   ("decodeName", (1%nat, "not modelled here: DNS decodeName (C08_decodeName_total)"));
+   ("Checksum", (1%nat, "not modelled here: carry fold of Model/Checksum.v (C15)"))].
 Fixpoint census_lookup (k : string) (t : list (string * (nat * string))) : option (nat * string) :=
   match t with [] => None | (n, v) :: r => if String.eqb n k then Some v else census_lookup k r end.
 
